@@ -403,15 +403,18 @@ class DesMasterKeyKind(Kind):
     explain_fn = 'des_mk_expected'
     shard = 6
     rule = ('scared.des.get_master_key(round key r of a key (checked against FIPS 46-3 inside Coq), r, pt, E_key(pt)) = the key with '
-            'its parity bits cleared, from each of the 16 round keys (classic and random keys); with a corrupted ciphertext the '
+            'its parity bits cleared, from each of the 16 round keys of random keys (and of the classic key); with a corrupted ciphertext the '
             'result is None; non-trivial = every case')
 
     def gen(self, rng, tier):
-        keys = [DES_CLASSIC] + [rand_hex(rng, 8) for _ in range(1 if tier == 'quick' else 11)]
+        # every one of the 16 round keys of a random key (quick: one key, plus four rounds of the classic key)
+        keys = [rand_hex(rng, 8) for _ in range(1 if tier == 'quick' else 11)]
+        for r in ((0, 5, 10, 15) if tier == 'quick' else range(16)):
+            yield {'key': DES_CLASSIC, 'round': r, 'pt': rand_hex(rng, 8), 'corrupt': False}
         for k in keys:
             for r in range(16):
                 yield {'key': k, 'round': r, 'pt': rand_hex(rng, 8), 'corrupt': False}
-        for _ in range(2 if tier == 'quick' else 8):
+        for _ in range(1 if tier == 'quick' else 8):
             yield {'key': rand_hex(rng, 8), 'round': rng.randint(0, 15), 'pt': rand_hex(rng, 8), 'corrupt': True}
 
     def run(self, case):
